@@ -4,6 +4,7 @@ CONSTANTS
   RecIds <- RecsIC
   RootId = 1
   PhenoId = 2
+  Prefix = FALSE
   WithExtras = FALSE
   WithPairs = FALSE
   MaxFacts = 2
